@@ -1113,7 +1113,8 @@ theorem respond_eq_respondLive_nil (c : Cfg) (r : Req) : respond c r = respondLi
 once, in buffer order) is what the live specification says when the queue does not change -/
 theorem goodLive_nil_events {c : Cfg} {r : Req} {cs : List ChunkOut} (h : GoodLive c r [] cs) :
     cs.flatMap (·.events) = eventsOf r := by
-  have hev := h.events
+  have hev : LiveEvents [] r.events (cs.flatMap (·.events)) := by
+    rw [List.flatMap_def]; exact h.events.flat
   unfold eventsOf
   cases he : r.events with
   | none => rw [he] at hev; exact hev
@@ -1127,6 +1128,28 @@ theorem goodLive_nil_events {c : Cfg} {r : Req} {cs : List ChunkOut} (h : GoodLi
       rw [hb i _ (List.getElem?_eq_getElem hi), envOf_nil]
     rw [hevs, hfro]
     rfl
+
+/-- **the live specification is message-wise**: queue `[1, 2, 3]` at the first fetch, `[3]` at the second
+(1 and 2 evicted meanwhile).  The messages `[1], [2, 3]` concatenate to what ONE fetch over the first
+queue reports, but message 2 reports event 2, which was not in the queue when message 2 was filled:
+rejected (`LiveMsgsFull.msg_sound`; the flat `LiveEvents` alone would accept it) -/
+example : ¬ LiveMsgs [[⟨3, 10, true⟩]]
+    (some { buf := [⟨1, 10, true⟩, ⟨2, 10, true⟩, ⟨3, 10, true⟩], nextMax := 100 })
+    [[.data 1 10], [.data 2 10, .data 3 10]] := by
+  intro h
+  rcases h with h | ⟨_, h0⟩
+  · obtain ⟨m0, hm⟩ := h.msg_sound
+    have h1 := (hm 0 [.data 1 10] 1 10 rfl (by simp)).1
+    obtain ⟨_, x, hx, hn, _⟩ := hm 1 [.data 2 10, .data 3 10] 2 10 rfl (by simp)
+    have : m0 = 0 := by omega
+    subst this
+    have hb : envOf [⟨1, 10, true⟩, ⟨2, 10, true⟩, ⟨3, 10, true⟩] [[⟨3, 10, true⟩]] (1 - 0) = [⟨3, 10, true⟩] := rfl
+    rw [hb] at hx
+    simp only [List.mem_singleton] at hx
+    subst hx
+    cases hn
+  · have := h0 [.data 1 10] (by simp)
+    cases this
 
 /-- a queue of three buffers of 30 bytes holding three debug events of 10 bytes -/
 def liveQ : Queue := (Queue.new 30).after [.push 0 10 none, .push 0 10 none, .push 0 10 none]
